@@ -288,8 +288,7 @@ func ruleDirty(r *Report) {
 		}
 		inLoop := reachAvoiding(c.Block(), c.Block(), nil, nil)
 		setsDirty := false
-		if mc, isMC := call.Call.Args[1].(*ssa.MakeClosure); isMC {
-			cf := mc.Fn.(*ssa.Function)
+		if cf := asFunc(call.Call.Args[1]); cf != nil {
 			for _, s := range callsWhere(cf, func(_ ssa.Instruction, cc *ssa.CallCommon) bool {
 				return methodOn(cc, "github.com/kelindar/bitmap", "Bitmap", "Set")
 			}) {
@@ -813,8 +812,8 @@ func ruleCommitUpdates(r *Report) {
 			}
 		}
 		p.chunkOK = sameExpr(cc.Args[2], chunkPar)
-		if mc, ok := cc.Args[3].(*ssa.MakeClosure); ok {
-			p.fn = mc.Fn.(*ssa.Function)
+		if cf := asFunc(cc.Args[3]); cf != nil {
+			p.fn = cf
 			for _, a := range callsTo(p.fn, false, "(*column.column).Apply") {
 				acc, _, _ := callCommon(a)
 				// receiver: columns[0] or element of columns[1:]
@@ -931,18 +930,16 @@ func ruleRowDelete(r *Report) {
 		if !sameExpr(cc.Args[1], cm.Params[3]) || !sameExpr(cc.Args[2], cm.Params[1]) {
 			continue
 		}
-		mc, isMC := cc.Args[3].(*ssa.MakeClosure)
-		if !isMC {
+		f1 := asFunc(cc.Args[3])
+		if f1 == nil {
 			continue
 		}
-		f1 := mc.Fn.(*ssa.Function)
 		for _, c2 := range callsTo(f1, false, "(*column.columns).Range") {
 			cc2, _, _ := callCommon(c2)
-			mc2, isMC2 := cc2.Args[1].(*ssa.MakeClosure)
-			if !isMC2 {
+			f2 := asFunc(cc2.Args[1])
+			if f2 == nil {
 				continue
 			}
-			f2 := mc2.Fn.(*ssa.Function)
 			for _, a := range callsTo(f2, false, "(*column.column).Apply") {
 				acc, _, _ := callCommon(a)
 				if sameExpr(acc.Args[0], f2.Params[0]) {
